@@ -160,14 +160,23 @@ func isBlank(s string) bool {
 	return true
 }
 
-func (p *parser) advanceOnLine() {
-	for {
-		char := p.next()
-		if char != ' ' && char != '\t' {
-			p.backup()
-			return
+// peek returns the next character that is neither whitespace nor part of a comment, or -1 if
+// there is none. It does not move the parser.
+func (p *parser) peek() int {
+	comment := false
+	for i := p.position; i < len(p.input); i++ {
+		char := p.input[i]
+		if char == '\n' {
+			comment = false
+		} else if comment || char == ' ' || char == '\t' || char == '\r' {
+			// ignore
+		} else if char == '#' {
+			comment = true
+		} else {
+			return int(char)
 		}
 	}
+	return -1
 }
 
 func (p *parser) readKeyword() string {
@@ -439,12 +448,14 @@ func (p *parser) readError(idl *IDL) (*Error, error) {
 		return nil, fmt.Errorf("missing error name")
 	}
 
-	p.advanceOnLine()
-	start := p.position
-	e.Type = p.readType()
-	if e.Type == nil && p.position != start {
-		// something follows the name that is not a type: do not drop it silently
-		return nil, fmt.Errorf("invalid error type")
+	// the parameters are optional; like every other token they may stand behind whitespace,
+	// comments and line breaks. Anything else is left to the caller: the next member or an error.
+	if p.peek() == '(' {
+		p.advance()
+		e.Type = p.readType()
+		if e.Type == nil {
+			return nil, fmt.Errorf("invalid error type")
+		}
 	}
 
 	return e, nil
